@@ -73,6 +73,8 @@ Json gen(sim::Rng& rng, int tier)
         p["chained"] = ch;
     }
     p["latency_us"] = static_cast<int>(5 + rng.below(500));
+    // the client's own writes of a request may come back short (legal for any send; the client then writes the rest)
+    if (rng.chance(0.3)) p["short_write_permille"] = static_cast<int>(20 + rng.below(400));
     gen_sched(rng, p, 6000, true);
     // another part of the application keeps connections of its own to the same server and opens one whenever it
     // likes - in particular right after the client released a descriptor, which then gets the same number
@@ -266,6 +268,7 @@ void run(const Json& plan)
     sim::Recorder& r = sim::rec();
     Server srv;
     simk::faults().client_side.latency_ns = simk::faults().server_side.latency_ns = std::max<i64>(1, plan.num("latency_us", 50)) * 1000;
+    simk::faults().short_write_p = static_cast<double>(std::max<i64>(0, std::min<i64>(900, plan.num("short_write_permille", 0)))) / 1000.0;
     const Json& ji = plan.get("issuers");
     std::deque<ReqState> reqs;
     std::vector<std::vector<ReqState*>> per_issuer(ji.size());
@@ -441,6 +444,10 @@ void run(const Json& plan)
             r.violation(sig, detail);
     };
     const bool hostile_mode = plan.flag("hostile_server");
+    std::vector<const ReqState*> unsettled_unreceived;
+    bool any_never = false;
+    for (auto& rs : reqs)
+        if (rs.behaviour == "never" || rs.behaviour == "raw") any_never = true;
     // a connection that ever carried a hostile response has no defined framing afterwards
     std::map<int, i64> hostile_on_conn;
     if (hostile_mode)
@@ -489,6 +496,31 @@ void run(const Json& plan)
             flag(rs, "C15.timeout:rejected-before-the-time-out-expired", who + " was rejected as timed out " + std::to_string((rs.settled_at - rs.issued_at) / 1000) + " us after it was issued");
         if (rs.srv_received_at < 0 && rs.fulfilled) flag(rs, "C15.own-response:fulfilled-without-reaching-the-server", who + " was fulfilled although the server never saw it");
         if (rs.srv_received_at < 0) r.probe("request-never-sent");
+        if (rs.srv_received_at < 0 && rs.fulfilled + rs.rejected == 0 && rs.issued_at >= 0) unsettled_unreceived.push_back(&rs);
+    }
+    // More requests than connections: a request waits in the client's overflow queue until a connection is free. When every
+    // request of the run is answered (or closed on) by the server, every connection becomes free again, and a request that
+    // the client has not even written by the end has been forgotten in the queue. (A request written to a connection that
+    // the server was closing at that moment is lost on the way and, without a time-out, never settled either: the statement
+    // does not cover that, so only requests that were never written count. All requests of a run have the same length.)
+    if (!hostile_mode && !any_never && !unsettled_unreceived.empty()) {
+        size_t len = 0, received = 0;
+        for (auto& c : srv.conns)
+            for (auto& m : c->reader.done) {
+                len = std::max(len, m.raw_len);
+                received++;
+            }
+        u64 written = 0;
+        for (auto& st : simk::sock_stats())
+            if (!other.ordinals.count(st.ordinal)) written += st.bytes_accepted;
+        if (len > 0 && written % len == 0) {
+            size_t lost_on_the_way = static_cast<size_t>(written / len) - std::min<size_t>(received, static_cast<size_t>(written / len));
+            // a request lost on the way is never settled and keeps its connection for ever; the queue behind it is stuck for that reason
+            if (lost_on_the_way == 0) {
+                const ReqState& rs = *unsettled_unreceived.back();
+                flag(rs, "C15.liveness:queued-request-never-sent", std::to_string(unsettled_unreceived.size()) + " request(s), e.g. tag " + std::to_string(rs.tag) + " (" + rs.behaviour + "), were never written by the client and never settled although the server answered every request it received and the client's connections were idle at the end");
+            }
+        }
     }
     r.stats["max_established"] = srv.max_established;
     // The limit is on the connections the client has at one time: its sockets from socket() to close(). (What the server
